@@ -23,7 +23,8 @@ Prefixes == <<
   <<WD(2, 3, 1), WD(4, 5, 1), WD(6, 7, 1)>>,          \* 2: three domains (needs T >= 6)
   <<WD(3, 5, 2)>>,                                    \* 3: one 2-tick domain
   <<WD(1, 2, 1), WD(2, 3, 1), WD(5, 6, 1)>>,          \* 4: adjacent pair + far one
-  <<WD(5, 6, 1), WD(1, 2, 1), WD(3, 4, 1), WD(7, 8, 1)>>  \* 5: four, inserted out of order (T >= 7)
+  <<WD(5, 6, 1), WD(1, 2, 1), WD(3, 4, 1), WD(7, 8, 1)>>, \* 5: four, inserted out of order (T >= 7)
+  <<WD(2, 4, 2), WD(4, 6, 2)>>                        \* 6: two adjacent 2-tick, 2-unit domains (partial deletes)
 >>
 Prefix == IF PrefixId = 0 THEN <<>> ELSE Prefixes[PrefixId]
 
